@@ -72,6 +72,11 @@ class SetTyper:
                 return True
             return False
         if isinstance(e, ast.BinOp) and isinstance(e.op, (ast.BitOr, ast.BitAnd, ast.Sub, ast.BitXor)):
+            # set algebra on dict views (`a.keys() - b.keys()`, `a.items() & b.items()`) yields a plain set
+            def view(x: ast.AST) -> bool:
+                return isinstance(x, ast.Call) and isinstance(x.func, ast.Attribute) and x.func.attr in ("keys", "items") and not x.args
+            if view(e.left) or view(e.right):
+                return True
             return self.is_set(e.left, depth + 1) or self.is_set(e.right, depth + 1)
         if isinstance(e, ast.IfExp):
             return self.is_set(e.body, depth + 1) or self.is_set(e.orelse, depth + 1)
